@@ -1,3 +1,376 @@
-"""Native replays for engine-M counterexamples (placeholder, filled in below)."""
+"""Native replay of engine-M counterexamples and translator validation.
+
+A cfg(verif_replay) driver (native/*.rs) is installed into the scratch copy of /repo and built with the ordinary
+toolchain; it runs the REAL crate code on concrete inputs. The Python side evaluates the property's reference formula
+in high-precision decimal arithmetic on the same inputs (critical values are taken from statrs directly through the
+driver, not through the crate) and compares. Only a reproduced deviation becomes a VIOLATION.
+"""
+import json, os, re, struct, shutil
+from decimal import Decimal, getcontext
+from fractions import Fraction
+from . import core
+
+getcontext().prec = 60
+NATIVE = os.path.join(core.VERIF, 'native')
+
+
+def bits(x):
+    return '0x%016x' % struct.unpack('<Q', struct.pack('<d', float(x)))[0]
+
+
+def unbits(s):
+    return struct.unpack('<d', struct.pack('<Q', int(s, 16)))[0]
+
+
+class Driver:
+    _inst = {}
+
+    @classmethod
+    def get(cls, ctx):
+        sc = ctx.scratch(None)
+        if sc.dir not in cls._inst:
+            cls._inst[sc.dir] = Driver(ctx, sc)
+        return cls._inst[sc.dir]
+
+    def __init__(self, ctx, sc):
+        self.ctx, self.sc = ctx, sc
+        src = os.path.join(sc.dir, 'src')
+        os.makedirs(os.path.join(src, 'bin'), exist_ok=True)
+        shutil.copy(os.path.join(NATIVE, 'verif_replay.rs'), os.path.join(src, 'verif_replay.rs'))
+        shutil.copy(os.path.join(NATIVE, 'bin_verif_replay.rs'), os.path.join(src, 'bin', 'verif_replay.rs'))
+        for mod in ('mean', 'utils', 'comparison'):
+            os.makedirs(os.path.join(src, mod), exist_ok=True)
+            shutil.copy(os.path.join(NATIVE, '%s_verif_raw.rs' % mod), os.path.join(src, mod, 'verif_raw.rs'))
+            with open(os.path.join(src, mod + '.rs'), 'a') as fh:
+                fh.write('\n#[cfg(verif_replay)]\npub mod verif_raw;\n')
+        with open(os.path.join(src, 'lib.rs'), 'a') as fh:
+            fh.write('\n#[cfg(verif_replay)]\npub mod verif_replay;\n')
+        env = dict(core.ENV)
+        env['RUSTFLAGS'] = '--cfg verif_replay'
+        env['CARGO_TARGET_DIR'] = os.path.join(sc.dir, 'target-native')
+        rc, out, dt = core.sh(['cargo', 'build', '--offline', '--bin', 'verif_replay'], cwd=sc.dir, timeout=1200, env=env)
+        self.ok = rc == 0
+        self.exe = os.path.join(sc.dir, 'target-native', 'debug', 'verif_replay')
+        self.build_log = out[-2000:]
+        ctx.extra['native_driver_build_s'] = round(dt, 1)
+
+    def run(self, cmds):
+        if not self.ok:
+            raise RuntimeError('native driver did not build: ' + self.build_log)
+        rc, out, dt = core.sh([self.exe], input='\n'.join(cmds) + '\n', timeout=120)
+        lines = out.split('\n')
+        return [l.strip() for l in lines[:len(cmds)]]
+
+
+# ----------------------------------------------------------------------------------------------- helpers
+def parse_result(line):
+    t = line.split()
+    if not t:
+        return ('none',)
+    if t[0] == 'ok':
+        if t[1] == 'two':
+            return ('ok', 'two', [unbits(t[2]), unbits(t[3])]) if t[2].startswith('0x') else ('ok', 'two', [int(t[2]), int(t[3])])
+        return ('ok', t[1], [unbits(t[2])]) if t[2].startswith('0x') else ('ok', t[1], [int(t[2])])
+    if t[0] == 'err':
+        return ('err', t[1])
+    return ('panic', ' '.join(t[1:]))
+
+
+def D(x):
+    return Decimal(x) if not isinstance(x, float) else Decimal(repr(x)) if False else Decimal(Fraction(x).numerator) / Decimal(Fraction(x).denominator)
+
+
+def model_float(model, name, default):
+    from mirsmt import smt
+    v = model.get(name)
+    if v is None:
+        return default
+    try:
+        return float(smt.smt_real_to_fraction(v))
+    except Exception:
+        m = re.search(r'-?\d+\.\d+', v)
+        return float(m.group(0)) if m else default
+
+
+def save(ctx, name, payload):
+    d = os.path.join(core.VERIF, 'replays', ctx.pid)
+    os.makedirs(d, exist_ok=True)
+    path = os.path.join(d, re.sub(r'[^\w.-]', '_', name) + '.json')
+    with open(path, 'w') as fh:
+        json.dump(payload, fh, indent=1)
+    return path
+
+
+KIND = ['two', 'upper', 'lower']
+
+
+def quantile_of(kind, L):
+    return (1 + Fraction(L)) / 2 if kind == 0 else Fraction(L)
+
+
+def close(a, b, scale, rel=1e-6):
+    if a != a or b != b:
+        return (a != a) == (b != b)
+    if a in (float('inf'), float('-inf')) or b in (float('inf'), float('-inf')):
+        return a == b
+    return abs(a - b) <= rel * max(abs(scale), 1e-300) + 1e-300
+
+
+# ----------------------------------------------------------------------------------------------- arithmetic mean
+def spec_arith(drv, s, sc, q, qc, n, kind, L):
+    """Reference: xbar -/+ c * sd / sqrt(n) in 60-digit decimal arithmetic; returns (variant, [bounds], info)."""
+    S, Q = D(s) + D(sc), D(q) + D(qc)
+    nn = Decimal(n)
+    mean = S / nn
+    var = (Q - S * S / nn) / (nn - 1)
+    if var < 0:
+        return None
+    sd = var.sqrt()
+    p = float(quantile_of(kind, L))
+    dof = n - 1
+    c = unbits(drv.run(['tq %s %s' % (bits(p), bits(float(dof)))] if dof < 100000 else ['zq %s' % bits(p)])[0])
+    span = D(c) * sd / nn.sqrt()
+    lo, hi = float(mean - span), float(mean + span)
+    kappa = float((abs(Q) + S * S / nn) / max(abs(Q - S * S / nn), Decimal('1e-9999')))
+    info = {'mean': float(mean), 'sd': float(sd), 'c': c, 'span': float(span), 'kappa': kappa}
+    if kind == 0:
+        return ('two', [lo, hi], info) if lo <= hi else ('err', [], info)
+    return ('upper', [lo], info) if kind == 1 else ('lower', [hi], info)
+
+
+def arith_inputs(model, suffix=''):
+    n = max(2, int(round(model_float(model, 'n' + suffix, 12))))
+    s = model_float(model, 's' + suffix, 53.5 * n)
+    sc = model_float(model, 'sc' + suffix, 0.0)
+    q = model_float(model, 'q' + suffix, None)
+    qc = model_float(model, 'qc' + suffix, 0.0)
+    if q is None or (q + qc) - (s + sc) ** 2 / n <= 0:
+        q = (s + sc) ** 2 / n * 1.37 + 3.0
+        qc = 0.0
+    return s, sc, q, qc, n
+
+
+def battery_conf(model):
+    L = model_float(model, 'L', 0.95)
+    L = min(max(L, 0.0005), 0.9995)
+    k = model.get('kind')
+    ks = []
+    try:
+        ks = [int(round(model_float(model, 'kind', 0)))]
+    except Exception:
+        pass
+    out = []
+    for kk in ks + [0, 1, 2]:
+        for ll in (L, 0.95, 0.3, 0.6):
+            if (kk, ll) not in out and 0 <= kk <= 2:
+                out.append((kk, ll))
+    return out
+
+
+def replay_arith(ctx, model, what, prefix='arith', transform=None):
+    """Confirm a refuted arithmetic-CI obligation: native ci_mean on the model's state (and a small battery around it)
+    against the reference formula."""
+    drv = Driver.get(ctx)
+    s, sc, q, qc, n = arith_inputs(model)
+    states = [(s, sc, q, qc, n)]
+    # a large-count state on the normal-quantile side of the switch, a tight (ill-conditioned but decidable) one, and a pinned one
+    states.append((5.5 * 150000, 0.0, 5.5 * 5.5 * 150000 + 150000 * 2.0, 0.0, 150000))
+    states.append((5000.0 * 70000, 0.0, 5000.0 ** 2 * 70000 + 70000 * 3.6e-5, 0.0, 70000))
+    states.append((5367.0, 0.0, 366209.0, 0.0, 100))
+    for st in states:
+        for kind, L in battery_conf(model):
+            cmd = '%s_ci_mean f64 %s %s %s %s %d %d %s' % (prefix, bits(st[0]), bits(st[1]), bits(st[2]), bits(st[3]), st[4], kind, bits(L))
+            got = parse_result(drv.run([cmd])[0])
+            exp = spec_arith(drv, st[0], st[1], st[2], st[3], st[4], kind, L)
+            if exp is None:
+                continue
+            if transform:
+                exp = transform(exp)
+            dev = deviation(got, exp)
+            if dev:
+                path = save(ctx, what, {'property': ctx.pid, 'what': what, 'command': cmd, 'native': got, 'reference': exp[:2], 'reference_detail': exp[2], 'deviation': dev,
+                                        'how': 'native/verif_replay driver built from the current /repo tree; reference = xbar -/+ c*s/sqrt(n) in 60-digit decimals, c from statrs directly'})
+                return True, path, dev
+    return False, None, 'native results agree with the reference on the model-derived inputs'
+
+
+def deviation(got, exp):
+    """None if the native outcome matches the reference within a conditioning-aware tolerance."""
+    variant, bounds, info = exp
+    tol = max(1e-6, 64 * info.get('kappa', 1.0) * 2.0 ** -53)
+    if tol > 0.05:
+        return None            # too ill-conditioned to decide: not a confirmation
+    if variant == 'err':
+        return None if got[0] in ('err',) else None
+    if got[0] != 'ok':
+        return 'native outcome %s, reference is an %s interval' % (got, variant)
+    if got[1] != variant:
+        return 'native kind %s, reference kind %s' % (got[1], variant)
+    scale = abs(info.get('span', 0.0)) or abs(info.get('mean', 1.0))
+    for g, e in zip(got[2], bounds):
+        if not close(g, e, scale, tol):
+            return 'native bound %r vs reference %r (half-width %r, tolerance %.1e of it)' % (g, e, info.get('span'), tol)
+    return None
+
+
+# ----------------------------------------------------------------------------------------------- wrappers (geometric / harmonic)
+def replay_wrapper(ctx, which, kind):
+    import math
+    drv = Driver.get(ctx)
+    # log-space / reciprocal-space states of a pinned positive sample
+    data = [10.6, 6.6, 26.7, 0.4, 5.7, 0.3, 1.1, 5.0, 8.4, 1.4, 15.1, 0.3, 20.4]
+    tr = [math.log(x) for x in data] if which == 'geometric' else [1.0 / x for x in data]
+    n = len(tr)
+    s, q = sum(tr), sum(x * x for x in tr)
+    if which == 'harmonic':
+        # keep the reciprocal-space interval strictly positive
+        pass
+    for k, L in [(kind, 0.9), (kind, 0.6), (0, 0.9), (1, 0.9), (2, 0.9)]:
+        cmd = '%s_ci_mean f64 %s %s %s %s %d %d %s' % (which, bits(s), bits(0.0), bits(q), bits(0.0), n, k, bits(L))
+        got = parse_result(drv.run([cmd])[0])
+        fk = k if which == 'geometric' else {0: 0, 1: 2, 2: 1}[k]
+        base = spec_arith(drv, s, 0.0, q, 0.0, n, fk, L)
+        if base is None or base[0] == 'err':
+            continue
+        if which == 'geometric':
+            exp = (KIND[k], [math.exp(b) for b in base[1]], base[2])
+        else:
+            bs = base[1]
+            if any(b <= 0 for b in bs):
+                continue
+            exp = (KIND[k], [1.0 / bs[1], 1.0 / bs[0]] if k == 0 else [1.0 / bs[0]], base[2])
+        info = dict(exp[2])
+        info['span'] = abs(exp[1][-1] - exp[1][0]) / 2 if len(exp[1]) == 2 else abs(exp[1][0]) * 0.1
+        dev = deviation(got, (exp[0], exp[1], info))
+        if dev:
+            path = save(ctx, 'C05_%s_%s' % (which, KIND[k]), {'property': ctx.pid, 'command': cmd, 'native': got, 'reference': exp[:2], 'deviation': dev})
+            return True, path, dev
+    return False, None, 'native results agree with the reference'
+
+
+# ----------------------------------------------------------------------------------------------- proportions
+def spec_wilson(drv, n, k, kind, L):
+    p = float(quantile_of(kind, L))
+    z = D(unbits(drv.run(['zq %s' % bits(p)])[0]))
+    nn, kk = Decimal(n), Decimal(k)
+    z2 = z * z
+    mean = (kk + z2 / 2) / (nn + z2)
+    span = z / (nn + z2) * (kk * (nn - kk) / nn + z2 / 4).sqrt()
+    lo, hi = float(mean - span), float(mean + span)
+    info = {'span': float(abs(span)) or 1e-3, 'z': float(z), 'kappa': 1.0}
+    return ('two', [lo, hi] if kind == 0 else [lo, 1.0] if kind == 1 else [0.0, hi], info)
+
+
+def spec_wald(drv, n, k, kind, L):
+    p = float(quantile_of(kind, L))
+    z = D(unbits(drv.run(['zq %s' % bits(p)])[0]))
+    nn, kk = Decimal(n), Decimal(k)
+    ph = kk / nn
+    span = z * (ph * (1 - ph) / nn).sqrt()
+    lo, hi = float(ph - span), float(ph + span)
+    info = {'span': float(abs(span)) or 1e-3, 'kappa': 1.0}
+    return ('two', [lo, hi] if kind == 0 else [lo, 1.0] if kind == 1 else [0.0, hi], info)
+
+
+def replay_proportion(ctx, model, what, fam='wilson'):
+    drv = Driver.get(ctx)
+    n = max(4, int(round(model_float(model, 'n', 400))))
+    k = int(round(model_float(model, 'k', 120)))
+    lo_dom = 2 if fam == 'wilson' else 10
+    cases = []
+    if lo_dom <= k <= n - lo_dom:
+        cases.append((n, k))
+    cases += [(400, 120), (500, 421), (10000, 89), (36037, 10), (20, 10)]
+    cmdname = 'wilson' if fam == 'wilson' else 'z_normal'
+    spec = spec_wilson if fam == 'wilson' else spec_wald
+    for (nn, kk) in cases:
+        if not (lo_dom <= kk <= nn - lo_dom):
+            continue
+        for kind, L in battery_conf(model) + [(1, 0.05), (2, 0.05), (1, 0.2)]:
+            cmd = '%s %d %d %d %s' % (cmdname, nn, kk, kind, bits(L))
+            got = parse_result(drv.run([cmd])[0])
+            exp = spec(drv, nn, kk, kind, L)
+            if exp[1][0] > exp[1][1]:
+                continue
+            dev = deviation(got, exp)
+            if dev:
+                path = save(ctx, what, {'property': ctx.pid, 'what': what, 'command': cmd, 'native': got, 'reference': exp[:2], 'deviation': dev,
+                                        'how': 'reference = Wilson/Wald formula in 60-digit decimals with z from statrs directly'})
+                return True, path, dev
+    return False, None, 'native results agree with the reference on the model-derived inputs'
+
+
 def replay_ratio(ctx, n, k):
-    return False, None, 'native replay not built yet'
+    drv = Driver.get(ctx)
+    rate = k / n
+    L = 0.95
+    a = drv.run(['wilson_ratio %d %s 0 %s' % (n, bits(rate), bits(L)), 'wilson %d %d 0 %s' % (n, k, bits(L))])
+    if a[0] != a[1]:
+        path = save(ctx, 'C02_ratio_n%d_k%d' % (n, k), {'property': ctx.pid, 'commands': ['wilson_ratio %d %r' % (n, rate), 'wilson %d %d' % (n, k)], 'native': a,
+                                                         'deviation': 'ci_wilson_ratio(conf, n, k/n) differs from ci_wilson(conf, n, k)'})
+        return True, path, 'ratio front end returns %s, counts give %s' % (a[0], a[1])
+    return False, None, 'ratio front end agrees with the counts for n=%d k=%d' % (n, k)
+
+
+# ----------------------------------------------------------------------------------------------- unpaired
+def spec_unpaired(drv, A, B, kind, L):
+    (sa, sca, qa, qca, na), (sb, scb, qb, qcb, nb) = A, B
+    Sa, Qa, Sb, Qb = D(sa) + D(sca), D(qa) + D(qca), D(sb) + D(scb), D(qb) + D(qcb)
+    na_, nb_ = Decimal(na), Decimal(nb)
+    ma, mb = Sa / na_, Sb / nb_
+    va, vb = (Qa - Sa * Sa / na_) / (na_ - 1), (Qb - Sb * Sb / nb_) / (nb_ - 1)
+    if va < 0 or vb < 0 or va + vb == 0:
+        return None
+    a, b = va / na_, vb / nb_
+    nu = (a + b) ** 2 / (a * a / (na_ + 1) + b * b / (nb_ + 1)) - 2
+    se = (a + b).sqrt()
+    p = float(quantile_of(kind, L))
+    c = unbits(drv.run(['tq %s %s' % (bits(p), bits(float(nu)))] if nu < 100000 else ['zq %s' % bits(p)])[0])
+    md = ma - mb
+    lo, hi = float(md - D(c) * se), float(md + D(c) * se)
+    info = {'span': float(D(c) * se), 'mean': float(md), 'kappa': 1.0, 'dof': float(nu), 'c': c}
+    if kind == 0:
+        return ('two', [lo, hi], info)
+    return ('upper', [lo], info) if kind == 1 else ('lower', [hi], info)
+
+
+def replay_unpaired(ctx, model, what):
+    drv = Driver.get(ctx)
+    A, B = arith_inputs(model, 'a'), arith_inputs(model, 'b')
+    pairs = [(A, B)]
+    # pinned: rats data (12 vs 7), one constant sample on either side, large samples (normal branch)
+    rats_a = (1440.0, 0.0, 177832.0, 0.0, 12)
+    rats_b = (707.0, 0.0, 73959.0, 0.0, 7)
+    const = (35.0, 0.0, 175.0, 0.0, 7)
+    big_a = (5.5 * 120000, 0.0, 5.5 ** 2 * 120000 + 240000.0, 0.0, 120000)
+    big_b = (4.5 * 130000, 0.0, 4.5 ** 2 * 130000 + 130000.0, 0.0, 130000)
+    pairs += [(rats_a, rats_b), (rats_a, const), (const, rats_b), (big_a, big_b)]
+    for (a, b) in pairs:
+        for kind, L in battery_conf(model):
+            cmd = 'unpaired_ci_mean f64 %s %s %d %s' % (' '.join([bits(x) for x in a[:4]] + [str(a[4])]), ' '.join([bits(x) for x in b[:4]] + [str(b[4])]), kind, bits(L))
+            got = parse_result(drv.run([cmd])[0])
+            exp = spec_unpaired(drv, a, b, kind, L)
+            if exp is None:
+                continue
+            dev = deviation(got, exp)
+            if dev:
+                path = save(ctx, what, {'property': ctx.pid, 'what': what, 'command': cmd, 'native': got, 'reference': exp[:2], 'reference_detail': exp[2], 'deviation': dev,
+                                        'how': 'reference = documented Welch-type interval in 60-digit decimals with the t quantile from statrs directly'})
+                return True, path, dev
+    return False, None, 'native results agree with the reference on the model-derived inputs'
+
+
+def rerun(pid, path):
+    """`./check <id> --replay <file.json>`: re-run the recorded native command on the current tree and show both sides."""
+    payload = json.load(open(path))
+    ctx = core.Ctx(pid, 'quick', 0)
+    drv = Driver.get(ctx)
+    cmds = payload.get('commands') or [payload['command']]
+    cmds = [c for c in cmds if re.match(r'\w+ ', c)]
+    out = drv.run([payload['command']]) if 'command' in payload else []
+    print('recorded native outcome :', payload.get('native'))
+    print('reference               :', payload.get('reference'))
+    print('native outcome now      :', [parse_result(o) for o in out])
+    same = out and list(parse_result(out[0])) == [x if not isinstance(x, list) else x for x in payload.get('native', [])]
+    print('deviation recorded      :', payload.get('deviation'))
+    return 1 if out and json.loads(json.dumps(parse_result(out[0]))) == payload.get('native') else 0
